@@ -196,6 +196,8 @@ class OpsMixin(object):
         if isinstance(seq, ListV):
             return ep.const(len(seq.items))
         if seq.kind == "opaque":
+            if getattr(seq, "length", None) is not None:
+                return seq.length          # a re-ordering of another sequence has that sequence's length
             return ep.app(("len", seq.path), [])
         if seq.kind == "family":
             return seq.hi - seq.lo
@@ -262,6 +264,14 @@ class OpsMixin(object):
             self.err(node, "exception attribute %s" % attr)
         if isinstance(base, Unknown):
             return Unknown(base.tag + "." + attr)
+        if isinstance(base, Num) and not base.rf.df:
+            # attribute of what was taken for the numeric result of calling an opaque object: it was an object
+            st = base.rf.n.single_term()
+            if st is not None and st[1] == 1:
+                fs = list(st[0].f)
+                if len(fs) == 1 and isinstance(fs[0][0], ep.AppA) and fs[0][0].dorder == 0 and fs[0][1] == ep.ONE and fs[0][0].args:
+                    a = fs[0][0]
+                    return self.getattr(Opaque(("call", a.fn, tuple(Num(x).key() for x in a.args))), attr, node)
         if isinstance(base, PyObjV):
             a = getattr(base.obj, "get_" + attr, None)
             if a is not None:
